@@ -64,6 +64,10 @@ type Case struct {
 	NoStart bool              `json:"nostart"` // omit %start (start symbol must then be called "start")
 	Rules   []Rule            `json:"rules"`
 	Valued  bool              `json:"valued"` // has %union and value-computing actions
+	// NestRule > 0: the action of that rule (1-based) starts a nested parse of NestInput on the same parser
+	// (Go variants: PushContex/ParserInit/Parser/PopContex, or a second context with -o) before doing its own work
+	NestRule  int   `json:"nestrule,omitempty"`
+	NestInput []int `json:"nestinput,omitempty"`
 }
 
 func isLitSym(s string) bool { return len(s) >= 3 && s[0] == '\'' && s[len(s)-1] == '\'' }
